@@ -30,6 +30,7 @@ def showRet (r : Ret) : String :=
   | .nonFatalErrors n => s!"nonfatal:{n}"
   | .errorsPtr fs => if fs.any id then "fatal" else s!"nonfatal:{fs.length}"
   | .plain => "fatal"
+  | .nonFatalErrorsPtr _ => "fatal"
 
 def tyOf : String → Option ATy
   | "cert" => some Gen.ty_certificate
@@ -101,6 +102,18 @@ where go : List String → String
           -- the i-th envelope gets the i-th observed inner result (missing ones count as fatal)
           let rs := (List.range certs.length).map fun i => ((ps.map (·.2))[i]?).getD ⟨false, .plain⟩
           showRet (innerAllR rs nfe)
+  | ["isfatal", kind] =>
+    let e : Option GoErr :=
+      if kind = "nil" then some .nil
+      else if kind = "plain" ∨ kind = "asn1" then some .plain
+      else match kind.splitOn ":" with
+        | ["nfe", n] => n.toNat?.map .nonFatalErrors
+        | ["nfeptr", n] => n.toNat?.map .nonFatalErrorsPtr
+        | ["errs", fl] => some (.errorsPtr (if fl = "-" then [] else fl.toList.map (· == '1')))
+        | _ => none
+    match e with
+    | some e => boolStr (isFatal e)
+    | none => "bad-op"
   | ["crl", hx, flags, hard] =>
     match fromHex hx, parseBool? hard with
     | some bs, some hard =>
